@@ -350,6 +350,7 @@ pub fn c16_pins() -> Vec<C16Pin> {
         C16Pin { name: "function_like_macro_cycle", src: || "#define G(x) F(x)\n#define F(x) G(x)\nunsigned char a;\nvoid main() { a = F(1); }\n".into(), argv_extra: &[] },
         C16Pin { name: "recursive_function", src: || "unsigned char n;\nvoid down() { if (n) { n--; down(); } }\nvoid ping();\nvoid pong() { if (n) { n--; ping(); } }\nvoid ping() { pong(); }\nvoid main() { down(); ping(); }\n".into(), argv_extra: &[] },
         C16Pin { name: "missing_closing_brace_at_eof", src: || "unsigned char a;\nvoid main() {\n  a = 1;\n".into(), argv_extra: &[] },
+        C16Pin { name: "huge_array_size", src: || "short sa0[2147483647];\nunsigned char c[-3];\nvoid main() { sa0[1] = 2; }\n".into(), argv_extra: &[] },
         C16Pin { name: "huge_literal", src: || "unsigned char a;\nvoid main() { a = 99999999999; }\n".into(), argv_extra: &[] },
         C16Pin { name: "double_minus_literal", src: || "void main() { csleep(--5); }\n".into(), argv_extra: &[] },
         C16Pin { name: "only_a_comment", src: || "/* unterminated comment\nvoid main() {}\n".into(), argv_extra: &[] },
